@@ -67,7 +67,7 @@ def meta(tier):
                 'containing a symbol name) x definition source of each defined symbol in {ISA, -D, #define} x use-line token pairs '
                 '(written once before and once after the #define block, as `.byte t1, t2`, through `T = t1` and as the operand of `ldi b, t2`); plus every '
                 'double definition across and within sources; replacement texts with backslash escapes (5 strings x 3 sources x chains of 0..2 intermediate '
-                'symbols) used in .cstr / .byte; 2..33 occurrences of one symbol on a line / in a replacement text; symbols without a value (3 sources x chains) in 7 lines that stay well-formed when the name disappears; symbol names that also read as numbers (b1, DEH, b101, ACH, each) x 3 sources x chains of 0..2 x alone / next to another symbol, and self-definitions of such names; chains in which the name of a symbol contains the name of the symbol it expands to (BASE_HI -> BASE); integer-valued ISA symbols; symbols whose name is the tail of a number literal on the same line ($1B and B, 10H and H); non-trivial = table with a chain/diamond/cycle or a use line that '
+                'symbols) used in .cstr / .byte; 2..33 occurrences of one symbol on a line / in a replacement text; symbols without a value (3 sources x chains) in 7 lines that stay well-formed when the name disappears; symbol names that also read as numbers (b1, DEH, b101, ACH, each) x 3 sources x chains of 0..2 x alone / next to another symbol, and self-definitions of such names; chains in which the name of a symbol contains the name of the symbol it expands to (BASE_HI -> BASE); integer-valued ISA symbols; #define and use in different files at every combination of line numbers (0/3/9 lines before the definition, 0/2/12 before the use); symbols whose name is the tail of a number literal on the same line ($1B and B, 10H and H); non-trivial = table with a chain/diamond/cycle or a use line that '
                 'mixes a symbol with an identifier containing its name; states = distinct (table, sources) pairs',
         'bounds': {'symbols': SYMS, 'values': {k: [None if v is None else ' '.join(v) for v in vs] for k, vs in VALUES.items()},
                    'containing_identifiers': CONSTS, 'use_tokens': [' '.join(t) for t in USE_TOKENS],
@@ -365,6 +365,26 @@ def number_like_names(acc, idx, n, ctr0):
         if msg:
             acc.violation([case], spec, f'symbol {name} next to the literal {literal} ({src}): {msg}', [out])
         acc.judge(clause='substituted', nontrivial_key=('tail', name, literal, src, order))
+    # definitions and uses in different files: "already defined" is about the order in which lines are read, not about line numbers
+    # (which start again in every file)
+    for hdr_pad, use_pad, direction in itertools.product((0, 3, 9), (0, 2, 12), ('define in the included file', 'use in the included file')):
+        ctr += 1
+        if ctr % n != idx:
+            continue
+        defs = ['; pad'] * hdr_pad + ['#define HB 0x40', '#define HW HB+2']
+        use = ['; pad'] * use_pad + ['    .byte HW, HB, XHB', '    .byte $EE']
+        if direction == 'define in the included file':
+            files = {'main.asm': 'XHB = 7\n#include "h.asm"\n' + '\n'.join(use) + '\n', 'h.asm': '\n'.join(defs) + '\n'}
+        else:
+            files = {'main.asm': 'XHB = 7\n' + '\n'.join(defs) + '\n#include "h.asm"\n', 'h.asm': '\n'.join(use) + '\n'}
+        case = Case(probe_isa(16, 'little'), files)
+        out = acc.run(case)
+        acc.transition()
+        spec = {'expect': 'OK', 'image_hex': bytes([0x42, 0x40, 7, 0xEE]).hex(), 'direction': direction, 'lines_before_define': hdr_pad, 'lines_before_use': use_pad}
+        msg = judge_expect(spec, [out])
+        if msg:
+            acc.violation([case], spec, f'{direction} ({hdr_pad} lines before the #define, {use_pad} before the use): {msg}', [out])
+        acc.judge(clause='substituted', nontrivial_key=('files', hdr_pad, use_pad, direction))
     for name, src in itertools.product(('b1', 'FACEH', 'LOOP'), SOURCES):
         ctr += 1
         if ctr % n != idx:
